@@ -436,6 +436,7 @@ class Exec:
         self.max_revisit = 1           # > 1: bounded loop unrolling (a block may occur that often on one path)
         self.havoc_unknown = havoc_unknown   # unknown EXTERNAL calls: event + arbitrary result of the declared type
         self.havoc_n = 0
+        self.no_inline = []            # regexes of crate functions that are havoc'd instead of inlined
 
     def new_obj(self, oid, fields):
         self.heap[oid] = list(fields)
@@ -986,6 +987,8 @@ class Exec:
             cands = [f for f in cands if (f.args and re.search(r"\b%s\b" % re.escape(tyname), f.args[0][1]))
                      or f.name.split("::")[0] == tyname.lower() or (f.ret and re.search(r"\b%s\b" % re.escape(tyname), f.ret) and not f.args)]
         if callee.split("::")[0] in ("core", "std", "alloc"):
+            cands = []
+        if any(re.search(rx, callee) for rx in self.no_inline):
             cands = []
         bodies = set(f.text for f in cands)
         if len(bodies) == 1:
